@@ -15,13 +15,31 @@ symbolic reasoning about the spaces in which finite elements lie.
 # Modified by Lizao Li 2015
 # Modified by Thomas Gibson 2017
 
-from functools import total_ordering
 from math import inf, isinf
 
 __all_classes__ = ["SobolevSpace", "DirectionalSobolevSpace"]
 
 
-@total_ordering
+def _is_proper_subspace(a, b):
+    """Check if the Sobolev space a is a proper subspace of the Sobolev space b."""
+    if isinstance(a, DirectionalSobolevSpace):
+        if isinstance(b, DirectionalSobolevSpace):
+            if a._spatial_indices != b._spatial_indices:
+                return False
+            return a._orders != b._orders and all(
+                a._orders[i] >= b._orders[i] for i in a._spatial_indices
+            )
+        if b.name in ["HDivDiv", "HEin", "HCurlDiv"]:
+            # Don't know how these spaces compare
+            raise NotImplementedError(f"Don't know how to compare with {b.name}")
+        # Contained in b iff the space of every direction is contained in b
+        return a != b and all(a[i] <= b for i in a._spatial_indices)
+    if isinstance(b, DirectionalSobolevSpace):
+        # Contained in b iff contained in the space of every direction of b
+        return a != b and all(a <= b[i] for i in b._spatial_indices)
+    return b in a.parents
+
+
 class SobolevSpace:
     """Symbolic representation of a Sobolev space.
 
@@ -85,14 +103,25 @@ class SobolevSpace:
                 "Unable to test for inclusion of a SobolevSpace in another SobolevSpace. "
                 "Did you mean to use <= instead?"
             )
-        return other.sobolev_space == self or self in other.sobolev_space.parents
+        return other.sobolev_space <= self
 
     def __lt__(self, other):
         """In common with intrinsic Python sets, < indicates "is a proper subset of"."""
-        return other in self.parents
+        return _is_proper_subspace(self, other)
+
+    def __le__(self, other):
+        """In common with intrinsic Python sets, <= indicates "is a subset of"."""
+        return self == other or _is_proper_subspace(self, other)
+
+    def __gt__(self, other):
+        """In common with intrinsic Python sets, > indicates "is a proper superset of"."""
+        return _is_proper_subspace(other, self)
+
+    def __ge__(self, other):
+        """In common with intrinsic Python sets, >= indicates "is a superset of"."""
+        return self == other or _is_proper_subspace(other, self)
 
 
-@total_ordering
 class DirectionalSobolevSpace(SobolevSpace):
     """Directional Sobolev space.
 
@@ -135,30 +164,13 @@ class DirectionalSobolevSpace(SobolevSpace):
                 "Unable to test for inclusion of a SobolevSpace in another SobolevSpace. "
                 "Did you mean to use <= instead?"
             )
-        return other.sobolev_space == self or all(
-            self[i] in other.sobolev_space.parents for i in self._spatial_indices
-        )
+        return other.sobolev_space <= self
 
     def __eq__(self, other):
         """Check equality."""
         if isinstance(other, DirectionalSobolevSpace):
             return self._orders == other._orders
         return all(self[i] == other for i in self._spatial_indices)
-
-    def __lt__(self, other):
-        """In common with intrinsic Python sets, < indicates "is a proper subset of."""
-        if isinstance(other, DirectionalSobolevSpace):
-            if self._spatial_indices != other._spatial_indices:
-                return False
-            return any(self._orders[i] > other._orders[i] for i in self._spatial_indices)
-
-        if other in [HDiv, HCurl]:
-            return all(self._orders[i] >= 1 for i in self._spatial_indices)
-        elif other.name in ["HDivDiv", "HEin", "HCurlDiv"]:
-            # Don't know how these spaces compare
-            return NotImplementedError(f"Don't know how to compare with {other.name}")
-        else:
-            return any(self._orders[i] > other._order for i in self._spatial_indices)
 
     def __str__(self):
         """Format as a string."""
